@@ -49,7 +49,9 @@ CHECKS = {
             'step of every thread (mu_decreases), so there is no infinite execution and an execution of k steps has '
             'k <= mu(init).',
             'Trusted: as C01; Condition modelled without spurious wake-ups (the code re-checks nothing after wait: a '
-            'spurious wake-up only causes an extra pass, covered by the mWake-independent invariants but not exhibited).',
+            'spurious wake-up only causes an extra pass, covered by the mWake-independent invariants but not exhibited). '
+            'Oracle-only cases (no model): a 1100-task job, updates that overwrite another task\'s entry, schedulers '
+            'created without a backend whose calls overlap (child process, real threads, 30 s).',
             '10 (scheduler)'),
     'C04': ('Lean 4 proof: clock invariant InvD (decided+final entries are frozen; a task starts strictly after the end of '
             'each DONE dependency; recorded clocks are in the past) preserved by every step from an arbitrary carried-over '
@@ -66,7 +68,9 @@ CHECKS = {
             'theorem uses the static condition that implies it (stale dependencies would be re-executed).',
             'Trusted: as C01; time.time() is modelled as a strictly increasing integer clock (each read is a scheduling '
             'point); persistence between runs (write_env/read_env) is C14\'s model, here the carried-over Env is passed '
-            'in memory through merge_done_tasks.',
+            'in memory through merge_done_tasks; 6% of the cases run the whole `valjean run` flow (job file, closure of the '
+            'returned tasks, read_env, scheduler, write_env) two or three times in a child process with real threads: those '
+            'are decided by the oracle only.',
             '10 (scheduler)'),
     'C05': ('Lean 4 proof over exact IEEE-like reals (XReal): Student t with its three conventions transcribed generically; '
             'verdict <=> all bins, oracle <=> ratio below the critical value, symmetry, invariance under a common positive '
